@@ -6070,7 +6070,15 @@ class CodegenCtx:
     def _generate_end_implementation(self):
         result = Outputter()
 
+        # FAIL is sticky: once _end has reported it, park the parser in a state no case label matches so every later call fails too
+        result.add(f"static {self.program_name}_result_t {self.program_name}_end_inner({self.program_name}_state_t *state);")
         result.add(f"{self.program_name}_result_t {self.program_name}_end({self.program_name}_state_t *state) {{")
+        with result as contents:
+            contents.add(f"{self.program_name}_result_t result = {self.program_name}_end_inner(state);")
+            contents.add(f"if (result == {self.program_name.upper()}_FAIL) state->state = {len(self.dfa.states)};")
+            contents.add(f"return result;")
+        result.add("}")
+        result.add(f"static {self.program_name}_result_t {self.program_name}_end_inner({self.program_name}_state_t *state) {{")
         result.add(f"#define inval 255") # generate a define for this so that hooks still work
         with result as contents:
             # Generate a big switch statement for all states
